@@ -224,26 +224,59 @@ def c08_5(R):
             R.fail([poll.name, "final-chance-arm", "restart=true"], "the final-chance timer is re-armed with restart=true on every poll: any poll (even the 5 s tracing tick) postpones the deadline forever", where=t.where(), instance="final-chance-arm")
         else:
             R.ok("final-chance-arm", poll.name, "arm(1 s, restart=false)")
-    # from is_local_fin_or_later()=true (the check after the closed test) to the final Pending
+    # the guard of the arm must hold in every state in which we have sent (or are about to send) our FIN and the task is still
+    # running: FinWait1, FinWait2, LastAck (Closed returns Ready before).  Evaluated through the variant table of the predicate used.
+    from utpsa.discr import fn_variant_classes
+    need = {"FinWait1", "FinWait2", "LastAck"}
+    for t in arms:
+        covered = None
+        pred_desc = "unconditional"
+        msa_b = [x.bb for x in poll.calls() if call_matches(x, (VS + "::maybe_send_ack",))]
+        domt = poll.dominators()
+        for c, truth, d, term_, *_ in controlling(poll, t.bb):
+            call = None
+            want = None
+            # only guards evaluated after the last sending stage decide whether the timer gets armed; the macro-generated
+            # checks (Result is Ok, transport not pending, no restart requested) are the loop's plumbing
+            if not any(m in domt.get(term_.bb, ()) for m in msa_b):
+                continue
+            if d in ("field:ThisPoll.transport_pending=false", "field:ThisPoll.restart=false") or (d.startswith("discr:") and d.endswith("=Ok")):
+                continue
+            if c.kind == "call" and c.call.args and trace(poll, c.call.args[0]).last_field == "VirtualSocket.state" and c.call.j.get("res_local"):
+                call, want = c.call, ("true" if truth else "false")
+            elif c.kind == "call" and call_matches(c.call, ("Option::is_some", "Option::is_none")):
+                inner = trace(poll, c.call.args[0])
+                if inner.kind == "call" and inner.root[1].args and trace(poll, inner.root[1].args[0]).last_field == "VirtualSocket.state" and inner.root[1].j.get("res_local"):
+                    call = inner.root[1]
+                    is_some = call_matches(c.call, ("Option::is_some",))
+                    want = "Some" if (is_some == truth) else "None"
+            if call is not None:
+                tab = fn_variant_classes(R.body(call.resolved))
+                pred_desc = "%s=%s" % (call.resolved.split("::")[-1], want)
+                vs = set(tab.get(want, set())) if tab else set()
+                covered = vs if covered is None else (covered & vs)
+            elif d.startswith("call:") or d.startswith("field:") or d.startswith("bin:"):
+                # some other guard we cannot evaluate over states: be conservative
+                if "state_is_closed" in d:
+                    continue
+                covered = set() if covered is None else covered
+                pred_desc += " && " + d
+        if covered is None:
+            covered = set(need)
+        if need <= covered:
+            R.ok("local-fin=>final-chance-armed", poll.name, "armed in every state with our FIN scheduled (guard %s covers %s)" % (pred_desc, ",".join(sorted(need))))
+        else:
+            R.fail([poll.name, "final-chance-arm-guard", pred_desc, "not-armed-in=" + ",".join(sorted(need - covered))],
+                   "the final-chance timer is armed only under %s, which is false in state(s) %s: after our FIN was acknowledged and the TX queue emptied (all timers off) nothing bounds the wait for the peer's FIN, the task and its table slot leak" % (pred_desc, ", ".join(sorted(need - covered))),
+                   where=t.where(), instance="local-fin=>final-chance-armed")
+    # and the arm is reached on every path from the ack stage to the final Pending on which its guard holds (no early skip)
     ab = {t.bb for t in arms}
-    starts = []
-    for blk in poll.blocks:
-        if blk.cleanup or blk.term.kind != "switch" or blk.idx not in poll.live_blocks():
-            continue
-        c, neg = switch_cond(poll, blk.term)
-        if c.kind == "call" and call_matches(c.call, ("VirtualSocketState::is_local_fin_or_later",)):
-            be = bool_edges(poll, blk.idx)
-            tgt = be[0] if neg else be[1]
-            # only the test that sits after maybe_send_ack (the other one guards transition_to_fin_wait_1)
-            msa = [t.bb for t in poll.calls() if call_matches(t, (VS + "::maybe_send_ack",))]
-            if any(m in poll.dominators().get(blk.idx, ()) for m in msa):
-                starts.append(tgt)
-    R.require(starts, "is_local_fin_or_later test after maybe_send_ack in poll")
-    okp = all(must_pass_blocks(poll, [f.bb for f in final], ab, start=s)[0] for s in starts)
-    if okp and ab:
-        R.ok("local-fin=>final-chance-armed", poll.name, "every path from is_local_fin_or_later()=true to the final Pending arms the timer")
-    else:
-        R.fail([poll.name, "local-fin-without(final-chance-arm)"], "after the local FIN poll can go to sleep without the final-chance timer armed", where=poll.where(), instance="local-fin=>final-chance-armed")
+    msa = [t.bb for t in poll.calls() if call_matches(t, (VS + "::maybe_send_ack",))]
+    for t in arms:
+        if not any(m in poll.dominators().get(t.bb, ()) for m in msa):
+            R.fail([poll.name, "final-chance-arm-before(maybe_send_ack)"], "the final-chance arm no longer follows the last sending stage", where=t.where(), instance="final-chance-position")
+        else:
+            R.ok("final-chance-position", poll.name, "after maybe_send_ack, before next_timer_to_poll")
     # closed => death path + Ready(Ok)
     okc = False
     for it, cls in ret_assignments(poll):
